@@ -5,6 +5,7 @@ pub enum Error {
     InvalidArgumentCount(String),
     NotFoundFunction(String),
     NotFoundNamespace(String),
+    Unsupported(String),
 }
 
 impl From<xml_dom::error::Error> for Error {
